@@ -298,3 +298,29 @@ func VX_C15_WriteFailedCauses(args []int) {
 	vxCheckSentinels(snaps)
 	vxCover("c15.write-failed-causes")
 }
+
+func init() { vxRegister("VX_C02_DuplicateReply", VX_C02_DuplicateReply) }
+
+// VX_C02_DuplicateReply: the peer sends the reply to a pending call twice,
+// back to back. The call completes exactly once; nothing crashes; the session
+// stays usable or is cleanly disconnected. args: chanCap, nBody
+func VX_C02_DuplicateReply(args []int) {
+	p := vxNewPeer()
+	conn := newVxConn("cli:1", "srv:2")
+	s, st := p.ServeConn(conn)
+	vxAssume(st.OK())
+	vxWaitIdle()
+	var res []byte
+	ch := make(chan CallCmd, args[0])
+	cmd := s.AsyncCall("/a", []byte("x"), &res, ch)
+	body := vxBytes("body", args[1])
+	f := vxFrame(TypeReply, cmd.Output().Seq(), "", body)
+	conn.feed(append(append([]byte{}, f...), f...)) // the same reply twice in one segment
+	vxWaitIdle()
+	vxAssert(vxDone(cmd) && cmd.StatusOK() && string(res) == string(body), "the call completes with the reply")
+	vxAssert(len(ch) == 1, "a call is delivered exactly once to its completion channel, also when its reply arrives twice")
+	conn.end()
+	vxWaitIdle()
+	vxAssert(vxBlockedThreads() == 0, "[C06] nobody left blocked once the input is exhausted")
+	vxCover("c02.duplicate-reply")
+}
